@@ -84,7 +84,8 @@ def judge(S: dict, r: dict) -> str | None:
     for name, typ, msg in r['errors']:
         if crashed and typ in ('EOFError', 'ConnectionResetError', 'OSError', 'BrokenPipeError'):
             continue
-        return 'thread-exception:%s:%s' % (name.split('.')[0].rstrip('0123456789'), typ)
+        role = name.split('.')[0].rstrip('0123456789') + ('.' + name.split('.')[1] if '.' in name else '')
+        return 'thread-exception:%s:%s:%s' % (role, typ, str(msg)[:50])
     # no client waits forever
     for i, done in enumerate(r['client_done']):
         if not done:
@@ -118,7 +119,10 @@ def judge(S: dict, r: dict) -> str | None:
                 return 'await-cancelled-did-not-fail'
             continue
         if res[0] != 'ok':
-            return 'spurious-error:%s' % (res[1] if len(res) > 1 else '')
+            txt = chain_text(res).replace('\\n', '\n')
+            errs = [ln.strip() for ln in txt.split('\n') if ('Error' in ln or 'Exception' in ln) and ':' in ln]
+            fns = [ln.strip().split(' in ')[-1] for ln in txt.split('\n') if ln.strip().startswith('File ') and ' in ' in ln]
+            return 'spurious-error:%s@%s' % ((errs[-1].split(':')[0] if errs else str(res[1])), fns[-1] if fns else '?')
         if res[1] != R.EXPECT[shape]:
             return 'wrong-result:%s' % shape
         for tag in R.ONCE[shape]:
